@@ -438,3 +438,50 @@ Proof.
   - cbn [pred_ok]. apply forallb_forall. intros x Hx. apply repeat_spec in Hx. subst x. rewrite <- E.
     apply (list_eqb_refl' series_eqb series_eqb_refl).
 Qed.
+
+(* ---------- lazy posting groups ---------- *)
+(* Any set of label names may be marked lazy: their groups' postings are not fetched and all
+   matchers of those names are re-checked on every candidate series instead
+   (keysToFetchFromPostingGroups + the lazy matcher loop of nextBatch). The selected set is
+   the same for EVERY marking. *)
+Lemma lazy_split_sem idx ms gs (lazy : str -> bool) :
+  (forall g, In g gs -> good_group idx ms g) ->
+  (forall m, In m ms -> exists g, In g gs /\ g_name g = m_name m) ->
+  forall s, In s idx ->
+  forallb (fun g => in_group g (gval s g)) (filter (fun g => negb (lazy (g_name g))) gs)
+  && forallb (fun m => m_fun m (label_get (fst s) (m_name m))) (filter (fun m => lazy (m_name m)) ms)
+  = forallb (fun g => in_group g (gval s g)) gs.
+Proof.
+  intros Hgood Hcover s Hs. apply eq_true_iff_eq. rewrite andb_true_iff, !forallb_forall. split.
+  - intros [He Hl] g Hg. destruct (lazy (g_name g)) eqn:El.
+    + destruct (Hgood g Hg) as (_ & _ & _ & Hsem). rewrite (Hsem s Hs). unfold conj_ms. apply forallb_forall.
+      intros m Hm. apply filter_In in Hm. destruct Hm as [Hm Hn]. apply str_eqb_eq in Hn.
+      unfold gval. rewrite <- Hn. apply Hl. apply filter_In. split; [exact Hm|]. rewrite Hn. exact El.
+    + apply He. apply filter_In. split; [exact Hg|]. rewrite El. reflexivity.
+  - intro H. split.
+    + intros g Hg. apply filter_In in Hg. apply H. tauto.
+    + intros m Hm. apply filter_In in Hm. destruct Hm as [Hm _].
+      destruct (Hcover m Hm) as (g & Hg & Hn). specialize (H g Hg).
+      destruct (Hgood g Hg) as (_ & _ & _ & Hsem). rewrite (Hsem s Hs) in H. unfold conj_ms in H.
+      rewrite forallb_forall in H. unfold gval in H. rewrite Hn in H. apply H.
+      apply filter_In. split; [exact Hm|]. apply str_eqb_refl.
+Qed.
+
+(* the groups built by matchersToPostingGroups satisfy the hypotheses of [lazy_split_sem] *)
+Lemma groups_good idx ms : Forall coherent ms ->
+  forall gs, matchers_to_groups idx ms = Some gs ->
+  (forall g, In g gs -> good_group idx (dedup_matchers ms) g)
+  /\ (forall m, In m (dedup_matchers ms) -> exists g, In g gs /\ g_name g = m_name m).
+Proof.
+  intros Hc gs E. unfold matchers_to_groups in E. set (ms' := dedup_matchers ms) in *.
+  assert (Hc' : Forall coherent ms').
+  { apply Forall_forall. intros m Hm. rewrite Forall_forall in Hc. apply Hc. apply dedup_sub. exact Hm. }
+  set (names := ssort (names_of ms' [])) in *.
+  assert (Hn1 : forall n, In n names -> exists m, In m ms' /\ m_name m = n).
+  { intros n Hn. unfold names in Hn. rewrite ssort_in in Hn. exact (names_of_sub ms' [] n Hn). }
+  pose proof (groups_for_ok idx ms' Hc' names Hn1) as Hg. rewrite E in Hg. destruct Hg as (G1 & G2).
+  split.
+  - rewrite Forall_forall in G1. exact G1.
+  - intros m Hm. apply G2. unfold names. rewrite ssort_in.
+    destruct (names_of_cover ms' [] m Hm) as [H|H]; [discriminate|exact H].
+Qed.
